@@ -350,9 +350,10 @@ impl Stats {
             .map_err(|e| SerializationError::InvalidVarIntPrefix)?;
 
         //  It is impossible to avoid this copy here unless we fuck up the whole blob data structure since blob does not guarantee alignment.
-        let mut aligned = AlignedVec::<4>::new();
+        // Stats holds 64-bit fields: the archive must be read from the aligned copy, at an 8-byte boundary
+        let mut aligned = AlignedVec::<8>::new();
         aligned.extend_from_slice(data);
-        let stats = from_bytes::<Stats, RkyvError>(data)?;
+        let stats = from_bytes::<Stats, RkyvError>(&aligned)?;
         Ok(stats)
     }
 }
